@@ -1712,6 +1712,18 @@ impl RecvCase {
             self.op(out, "recv send", viol).await;
             guard += 1;
         }
+        // every third loop starts with a suspension in mid-recovery (`C19_resume_lossy_rounds`, Props/C19l.lean): the
+        // Resume.request rebuilds the queue and starts both counters afresh, so the fairness conditions count from it
+        if rng.chance(1, 3) {
+            self.op(out, "recv suspend", viol).await;
+            self.op(out, &format!("recv adv {}", 500 + rng.below(6000)), viol).await;
+            self.op(out, "recv resume", viol).await;
+            guard = 0;
+            while verif::recv_has_pdu_to_send(&self.t) && guard < 64 {
+                self.op(out, "recv send", viol).await;
+                guard += 1;
+            }
+        }
         // the loop's starting state: NAK counter running since the last NAK (`tp`), `j` fruitless rounds so far,
         // last delivery at `a`
         let mut tp = self.now_ms;
